@@ -1,6 +1,6 @@
 //! Minimal strict XML reader (own code, independent of quick-xml): prolog, elements, attributes,
 //! the five predefined entities and numeric character references, text. Rejects anything that is
-//! not well-formed. Namespace prefixes are kept verbatim.
+//! not well-formed. Namespace prefixes are kept verbatim; every prefix in use must be declared in scope.
 
 #[derive(Clone, Debug, PartialEq)]
 pub struct Element {
@@ -281,5 +281,38 @@ pub fn parse(doc: &[u8]) -> Result<Element, String> {
     if p.i != doc.len() {
         return Err(format!("trailing content at offset {}", p.i));
     }
+    // Namespaces in XML: every prefix used by an element or attribute name must be bound by an xmlns:prefix
+    // declaration in scope (a namespace-aware reader rejects the document otherwise)
+    check_prefixes(&root, &mut vec!["xml".to_string(), "xmlns".to_string()])?;
     Ok(root)
+}
+
+fn check_prefixes(e: &Element, scope: &mut Vec<String>) -> Result<(), String> {
+    let mark = scope.len();
+    for (k, _) in &e.attrs {
+        if let Some(p) = k.strip_prefix("xmlns:") {
+            scope.push(p.to_string());
+        }
+    }
+    let prefix_of = |n: &str| n.split_once(':').map(|(p, _)| p.to_string());
+    if let Some(p) = prefix_of(&e.name) {
+        if !scope.contains(&p) {
+            return Err(format!("unbound namespace prefix '{}' on element <{}>", p, e.name));
+        }
+    }
+    for (k, _) in &e.attrs {
+        if k.starts_with("xmlns:") || k == "xmlns" {
+            continue;
+        }
+        if let Some(p) = prefix_of(k) {
+            if !scope.contains(&p) {
+                return Err(format!("unbound namespace prefix '{}' on attribute {} of <{}>", p, k, e.name));
+            }
+        }
+    }
+    for c in &e.children {
+        check_prefixes(c, scope)?;
+    }
+    scope.truncate(mark);
+    Ok(())
 }
